@@ -678,7 +678,7 @@ func genWiring() {
 	all["wiring.linkTypeFollowsVpn"] = linkOK
 
 	var sb strings.Builder
-	sb.WriteString("import SxVerif.Model.Wiring\n\nnamespace SxVerif.Generated\nopen SxVerif.Wiring\n\n")
+	sb.WriteString("import SxVerif.Model.Wiring\nimport SxVerif.Model.CaptureSource\n\nnamespace SxVerif.Generated\nopen SxVerif.Wiring\n\n")
 	sb.WriteString("/-- one row per packet-scan command: what `command/*.go` hands to `startPacketScanEngine` -/\n")
 	sb.WriteString("def wiring : List Row := [\n" + strings.Join(leanRows, ",\n") + "\n]\n\n")
 	sb.WriteString("/-- `startPacketScanEngine` opens the socket with `conf.vpnMode`, installs `conf.bpfFilter(&conf.scanRange)` on it\n    and runs `conf.scanMethod` behind it (per chunk: `conf` is the chunk's copy) -/\n")
